@@ -96,6 +96,18 @@ def variant_name(e):
     return None
 
 
+class OpLog(list):
+    """side-op sites visited by the analysis: one entry per (operation root, op, side, source location), pre-states merged"""
+
+    def append(self, item):
+        fn, op, side, where, pre = item
+        for i, (f2, o2, s2, w2, p2) in enumerate(self):
+            if f2 == fn and o2 == op and s2 == side and w2.split(" (")[0] == where.split(" (")[0]:
+                self[i] = (f2, o2, s2, w2, frozenset(p2) | frozenset(pre))
+                return
+        list.append(self, (fn, op, side, where, frozenset(pre)))
+
+
 class Violation:
     def __init__(self, rule, key, where, what):
         self.rule = rule
@@ -105,8 +117,9 @@ class Violation:
 
 
 class StatusWrite:
-    def __init__(self, fn, where, new, pre, entity, b):
+    def __init__(self, fn, where, new, pre, entity, b, src=None):
         self.fn = fn
+        self.src = src
         self.where = where
         self.new = new
         self.pre = pre
@@ -121,7 +134,7 @@ class TypeState:
         self.memo = {}
         self.violations = {}
         self.status_writes = {}
-        self.ops = []          # (fn short, op, side, where, pre-states)
+        self.ops = OpLog()     # (fn short, op, side, where, pre-states), one entry per source site
         self.calls = []        # (caller Fn, callee Fn, {callee entity key: set of sides}, where)
         self.contexts = 0
         self.stack = []
@@ -197,11 +210,11 @@ class TypeState:
         return None
 
     # ------------------------------------------------------------------ main analysis
-    def analyse(self, fn, entry, mode="api", consts=(), aliases=None):
+    def analyse(self, fn, entry, mode="api", consts=(), aliases=None, q=None):
         """entry: dict key -> frozenset(tuples) for parameter-rooted entities.
         returns dict(exit=dict key->frozenset, ret=expr)"""
         ck = (fn.path, mode, tuple(sorted((repr(k), tuple(sorted(v, key=repr))) for k, v in entry.items())), tuple(consts),
-              tuple(sorted((j, repr(k)) for j, k in (aliases or {}).items())))
+              tuple(sorted((j, repr(k)) for j, k in (aliases or {}).items())), "view" if q is not None else "")
         if ck in self.memo:
             return self.memo[ck]
         if fn.path in self.stack:
@@ -211,7 +224,8 @@ class TypeState:
         self.consts_stack.append(dict(consts))
         self.alias_stack.append(dict(aliases or {}))
         self.contexts += 1
-        q = self.m.q(fn)
+        if q is None:
+            q = self.m.q(fn)
         body = q.body
         nb = len(body.blocks)
         IN = {0: dict(entry)}
@@ -319,6 +333,26 @@ class TypeState:
                     if not nv:
                         return None
                     st[self.canon_key(st, k)] = frozenset(nv)
+            if a[0] == "bool" and a[1][0] == "phi":
+                # `is_market = match side { Bid => price == MAX, Ask => price == 0 }`: each alternative compares the price
+                # with a market sentinel; under valid histories (limit prices strictly inside (0, MAX)) the join is true iff
+                # the order is a market order
+                alts = a[1][1]
+                ks = set()
+                okp = True
+                for x in alts:
+                    if x[0] == "bin" and x[1] == "Eq" and x[2][0] == "field" and x[2][2] == "price" and x[3][0] == "const" and x[3][3] in (0, 0xFFFFFFFF):
+                        ks.add(repr(x[2][1]))
+                        kk = x[2][1]
+                    else:
+                        okp = False
+                if okp and len(ks) == 1:
+                    k = self.canon_key(st, kk)
+                    cur = self.get(q, st, k, mode)
+                    nv = frozenset(t for t in cur if (t[5] == "market") == bool(a[2]))
+                    if not nv:
+                        return None
+                    st[k] = nv
             if a[0] == "variant":
                 subj = a[1]
                 names = a[2]
@@ -398,7 +432,7 @@ class TypeState:
             if new not in STATUSES:
                 self.viol("status-write", "nonconst|" + q.fn.short(), where, "status assigned a non-constant value: " + w.text())
                 return
-            self.status_writes.setdefault((q.fn.path, w.b, new), StatusWrite(q.fn, where, new, set(), render(k), w.b)).pre.update(pre)
+            self.status_writes.setdefault((w.sp.get("file"), w.sp.get("line"), new), StatusWrite(q.fn, where, new, set(), render(k), w.b, (w.sp.get("file"), w.sp.get("line")))).pre.update(pre)
             if new == "Filled":
                 g = [a for a in w.guards if a[0] == "cmp" and a[1] == "eq" and a[2][0] == "field" and a[2][2] == "vol"
                      and same(a[2][1], k) and a[3][0] == "const" and a[3][3] == 0]
@@ -434,15 +468,21 @@ class TypeState:
                         self.viol("state-machine", "vol-on-terminal|%s|%s" % (q.fn.short(), t[0]), where,
                                   "volume of %s rewritten where its status may be %s (terminal orders never change)" % (render(k), t[0]))
                     if t[1]:
-                        self.viol("accounting", "vol-overwrite|" + q.fn.short(), where,
-                                  "volume of %s overwritten (%s) while it is filed in the priority map: aggregates go stale" % (render(k), w.text()))
+                        if t[3] is not None:
+                            self.viol("accounting", "vol-overwrite|" + q.fn.short(), where,
+                                      "volume of %s overwritten (%s) while an earlier change is still unmirrored" % (render(k), w.text()))
+                        # `vol = v` on a filed order: the side still accounts for the old volume; the unmirrored decrease is
+                        # (old volume - v), to be removed with remove_vol before the operation ends (checked there, incl. that
+                        # the old volume was read BEFORE this write)
+                        nv.add((t[0], t[1], t[2], ("overwrite", ("field", k, "vol", ""), v, (w.b, w.i if w.i is not None else 1 << 20)), t[4], t[5]) + t[6:])
+                        continue
                     nv.add(t)
             self.put(st, k, frozenset(nv))
         elif f in ("end_time", "arr_time") and owner == "Order":
             k = a[1]
             cur = self.get(q, st, k, mode)
             kind = "clock" if self.is_clock(q, w.val) else "other"
-            self.time_writes.add((q.fn.path, w.b, w.i))
+            self.time_writes.add((w.sp.get("file"), w.sp.get("line"), f))
             pos = 6 if f == "end_time" else 7
             nv = set()
             for t in cur:
@@ -606,7 +646,16 @@ class TypeState:
                     self.viol("accounting", "remove-vol-notin|" + q.fn.short(), where, "remove_vol for order %s which may not be filed (status %s)" % (render(k), t[0]))
                 if side and t[2] != side:
                     self.viol("accounting", "remove-vol-side|%s|%s" % (q.fn.short(), side), where, "remove_vol on the %s side for order %s of side %s" % (side, render(k), t[2]))
-                if t[3] is None or vol_a != t[3]:
+                if t[3] is not None and t[3][0] == "overwrite":
+                    _tag, oldv, newv, wsite = t[3]
+                    d = vol_a
+                    if d[0] == "field" and d[1][0] == "bin":
+                        d = d[1]
+                    okd = d[0] == "bin" and d[1] in ("Sub", "SubWithOverflow") and same(d[2], oldv) and d[3] == newv and self.read_before(q, c, oldv, wsite)
+                    if not okd:
+                        self.viol("accounting", "remove-vol-delta|" + q.fn.short(), where, "remove_vol removes %s but the volume of %s was overwritten from its old value to %s: the side must lose (old volume - %s), with the old volume read before the overwrite" % (
+                            render(vol_a), render(k), render(newv), render(newv)))
+                elif t[3] is None or vol_a != t[3]:
                     self.viol("accounting", "remove-vol-delta|" + q.fn.short(), where, "remove_vol removes %s but the unmirrored decrease of %s is %s" % (render(vol_a), render(k), render(t[3]) if t[3] else "none"))
                 nv.add((t[0], t[1], t[2], None, t[4], t[5]) + t[6:])
             self.put(st, k, frozenset(nv))
@@ -683,6 +732,23 @@ class TypeState:
                         pend = subst(pend, mapping)
                 nv.add((t[0], t[1], t[2], pend, t[4], t[5]) + t[6:])
             st[k] = frozenset(nv)
+
+    def read_before(self, q, c, oldv, wsite):
+        """every load of the old volume inside the (unstripped) volume argument of call c happens strictly before the write at wsite"""
+        raw = c.raw[2] if len(c.raw) > 2 else None
+        if raw is None:
+            return False
+        pts = [x[2] for x in walk(raw) if x[0] == "load" and same(strip(x[1]), oldv)]
+        if not pts:
+            return False
+        wb, wi = wsite
+        for (b, i) in pts:
+            if b == wb:
+                if i > wi:
+                    return False
+            elif not q.body.dominates(b, wb):
+                return False
+        return True
 
     def touches_entities(self, fn):
         """does fn (transitively) write order fields / call side ops (cheap syntactic test)"""
